@@ -607,9 +607,12 @@ func (y *vsSys) registrationProbes(s *vsState) *engine.Violation {
 			return k.RegisterExecutorChangePlan(1, h, valOf("o3"), "m", good, "i", []string{""})
 		}},
 	}
-	for hh := range s.plans {
-		hh := hh
-		probes = append(probes, probe{"duplicate-height", func() error { return k.RegisterExecutorChangePlan(2, hh, valOf("o3"), "m", good, "i", e) }})
+	for hh, pl := range s.plans {
+		hh, pid := hh, pl.ProposalID
+		probes = append(probes, probe{"duplicate-height", func() error { return k.RegisterExecutorChangePlan(pid+1, hh, valOf("o3"), "m", good, "i", e) }})
+		probes = append(probes, probe{"duplicate-height-same-proposal-id", func() error {
+			return k.RegisterExecutorChangePlan(pid, hh, valOf("o1"), "other", pubKeyJSON(s.w, "k1"), "other", []string{world.Addr("e1").String()})
+		}})
 	}
 	before := world.PlansBytes(k.ExecutorChangePlans)
 	d0 := s.w.Digest(s.ctx)
